@@ -65,6 +65,12 @@ import Tie.MetaTable
 #print axioms Sourcer.C19_sugar
 #print axioms Sourcer.C19_repeat
 #print axioms Sourcer.C19_choice
+#print axioms Sourcer.C05_flat_locals_realise_lexical_scoping
+#print axioms Sourcer.C05_rule_outcome
+#print axioms Sourcer.C05_where_apply_class
+#print axioms Sourcer.C05_shadowing_breaks_it
+#print axioms Sourcer.C06_call_is_body_with_arguments
+#print axioms Sourcer.C06_arguments_bind_parameters
 #print axioms Tie.implFlags_sound -- module Tie.Flags
 #print axioms Tie.impl_refines -- module Tie.Flags
 #print axioms Tie.map_index_eq -- module Tie.Excerpt
